@@ -80,6 +80,30 @@ def _check_key(kind: str, key: str):
     return None
 
 
+PREFIXES = ["7", "12", "1.5", "3°4", "0", "°", ".", "`ab`", "«ab«", "»ab»", "→", "←ab", "+", "kA", "\\a", "‛ab",
+            "⁺a", "#c\n", " ", "[", "]", "|", ";", "X", "v", "λ"]
+SUFFIXES = ["", "7", "a", "+", "|", "`q`", "kA", ".5"]
+
+
+def _check_positional(key: str):
+    """A key must be one GENERAL token wherever it stands: tokenise(p + key + s)
+    == tokenise(p) + [GENERAL key] + tokenise(s) for every neighbouring token."""
+    tok = vyxal.lexer.tokenise
+    mid = [vyxal.lexer.Token(T.GENERAL, key)]
+    for pre in PREFIXES:
+        if pre in ("→", "←ab") and (key[0].isalpha() or key[0] == "_") and key[0].isascii():
+            continue  # documented: names absorb following ASCII letters / underscore
+        for suf in SUFFIXES:
+            try:
+                got = tok(pre + key + suf)
+                want = tok(pre) + mid + tok(suf)
+            except Exception as e:  # noqa: BLE001
+                return ("positional-raises", f"tokenise({pre + key + suf!r}) raised {e!r}")
+            if got != want:
+                return ("positional", f"key {key!r} between {pre!r} and {suf!r}: tokenise({pre + key + suf!r}) = {got!r}, expected {want!r}")
+    return None
+
+
 def _dup_keys():
     """Duplicate constant keys in the dict literals of vyxal/elements.py."""
     path = os.path.join(harness.VYXAL_DIR, "elements.py")
@@ -174,6 +198,14 @@ def run(rec, tier, seed):
         keycase("modifier-list", k)
     for k in list(P.STRUCTURE_INFORMATION) + list(P.CLOSING_CHARACTERS) + ["|", P.BREAK_CHARACTER, P.RECURSE_CHARACTER]:
         keycase("structure", k)
+    allkeys = (list(vyxal.elements.elements) + list(vyxal.elements.modifiers) + _all_modifiers()
+               + list(P.STRUCTURE_INFORMATION) + list(P.CLOSING_CHARACTERS) + ["|", P.BREAK_CHARACTER, P.RECURSE_CHARACTER])
+    for k in dict.fromkeys(allkeys):
+        r = _check_positional(k)
+        rec.case(nontrivial=True, cls="key-positional", n=len(PREFIXES) * len(SUFFIXES))
+        if r:
+            rec.fail(f"C20:{r[0]}:{k}", {"kind": "positional", "key": k}, r[1])
+    rec.sample({"positional": {"prefixes": PREFIXES[:6], "suffixes": SUFFIXES}})
     rec.sample({"element-keys": list(vyxal.elements.elements)[:8] + list(vyxal.elements.elements)[-4:]})
     mods = _all_modifiers()
     if len(mods) != len(set(mods)):
@@ -240,6 +272,11 @@ def replay(case):
         return None if ok else (f"C20:text-roundtrip:{s[0]!r}", f"text {s!r} does not round-trip")
     if kind == "key":
         r = _check_key(case["table"], case["key"])
+        return (f"C20:{r[0]}:{case['key']}", r[1]) if r else None
+    if kind == "positional":
+        if not case["key"]:
+            return None
+        r = _check_positional(case["key"])
         return (f"C20:{r[0]}:{case['key']}", r[1]) if r else None
     if kind == "dup":
         for table, key, l1, l2 in _dup_keys()[0]:
